@@ -45,7 +45,10 @@ func (s *PFCPSession) CreatePDR(p pdr) {
 func (s *PFCPSession) UpdatePDR(p pdr) error {
 	for idx, v := range s.pdrs {
 		if v.pdrID == p.pdrID {
+			// the counter cell was assigned by the datapath when the rule was created
+			p.ctrID = v.ctrID
 			s.pdrs[idx] = p
+
 			return nil
 		}
 	}
